@@ -355,7 +355,8 @@ func vfEq(a, b []byte) bool {
 
 // scenarios: 0 in place (a.js -> a.js), 1 separate output, 2 in place through a symlink (l.js -> a.js, output a.js),
 // 3 bundle of two files onto the first of them, 4 bundle to a separate file, 5 sync copy of an unknown type,
-// 6 bundle of two files onto the second of them, 7 sync copy onto itself through an alias (link lo.txt -> other.txt).
+// 6 bundle of two files onto the second of them, 7 sync copy onto itself through an alias (link lo.txt -> other.txt),
+// 8 bundle of a.js.bak (an ordinary input) and b.js into a.js.
 // Optionally (symbolic) the destination of scenarios 1 and 4 exists already with longer content, and an unrelated
 // a.js.bak exists next to a.js
 func vfScenario(n int) (t Task, inputs map[string][]byte, wantDst string, want []byte, ok bool) {
@@ -369,7 +370,7 @@ func vfScenario(n int) (t Task, inputs map[string][]byte, wantDst string, want [
 		inputs["a.js.bak"] = []byte("user backup")
 	}
 	predst := vBool("predst")
-	switch vChoice("scenario", 8) {
+	switch vChoice("scenario", 9) {
 	case 0:
 		t = Task{".", []string{"a.js"}, "a.js", false}
 		want, ok = vfRefStub(a)
@@ -397,6 +398,14 @@ func vfScenario(n int) (t Task, inputs map[string][]byte, wantDst string, want [
 		if predst {
 			vfPut("bundle.js", []byte("old and longer content"))
 		}
+	case 8:
+		// a bundle one of whose inputs happens to be named like the backup of the destination: it is an input like any other
+		vAssume(vfFiles["a.js.bak"] != nil)
+		delete(inputs, "a.js") // here a.js is only the (pre-existing) destination
+		t = Task{".", []string{"a.js.bak", "b.js"}, "a.js", false}
+		mimetype = "application/javascript"
+		want, ok = vfRefStub(append(append([]byte("user backup"), ";\n"...), b...))
+		wantDst = "a.js"
 	case 7:
 		vfLink("lo.txt", "other.txt")
 		t = Task{".", []string{"lo.txt"}, "other.txt", true}
@@ -412,6 +421,15 @@ func vfScenario(n int) (t Task, inputs map[string][]byte, wantDst string, want [
 		wantDst = "out/other.txt"
 	}
 	return
+}
+
+func vfIsSrc(t Task, name string) bool {
+	for _, s := range t.srcs {
+		if s == name {
+			return true
+		}
+	}
+	return false
 }
 
 // vfInBackup: the original bytes of the file `name` are held by <name>.bak or by the backup of an input path that is
@@ -463,7 +481,7 @@ func VerifMinifyTask(n int) {
 		}
 		nd, _ := vfResolve(name)
 		if !(nd != nil && vfEq(nd.data, data)) {
-			if name == "a.js.bak" && wantDst == "a.js" {
+			if name == "a.js.bak" && wantDst == "a.js" && !vfIsSrc(t, name) {
 				vKnown("C19-F63") // recorded finding: an unrelated <dst>.bak is overwritten by the backup rename and removed afterwards
 			}
 			vFail("no other file is modified")
@@ -494,13 +512,13 @@ func VerifMinifyCrash(n int) {
 			inBak := vfInBackup(t, name, data)
 			newOut := name == wantDst && nd != nil && vfEq(nd.data, want)
 			if !(orig || inBak || newOut) {
-				if name == "a.js.bak" && wantDst == "a.js" {
+				if name == "a.js.bak" && wantDst == "a.js" && !vfIsSrc(t, name) {
 					vKnown("C19-F63")
 				}
 				vFail("at the kill point the content of an input is present nowhere on disk")
 			}
 			if name != wantDst && !orig {
-				if name == "a.js.bak" && wantDst == "a.js" {
+				if name == "a.js.bak" && wantDst == "a.js" && !vfIsSrc(t, name) {
 					vKnown("C19-F63")
 				}
 				vFail("a file that is only read was modified")
